@@ -2,6 +2,7 @@ pub mod c01;
 pub mod c02;
 pub mod c03;
 pub mod c05;
+pub mod c06;
 pub mod c07;
 pub mod c08;
 pub mod c09;
@@ -28,5 +29,5 @@ macro_rules! m {
 }
 
 pub fn registry() -> Vec<Monitor> {
-    vec![m!("C01", c01), m!("C02", c02), m!("C03", c03), m!("C05", c05), m!("C07", c07), m!("C08", c08), m!("C09", c09), m!("C10", c10), m!("C11", c11), m!("C12", c12), m!("C19", c19), m!("C20", c20)]
+    vec![m!("C01", c01), m!("C02", c02), m!("C03", c03), m!("C05", c05), m!("C06", c06), m!("C07", c07), m!("C08", c08), m!("C09", c09), m!("C10", c10), m!("C11", c11), m!("C12", c12), m!("C19", c19), m!("C20", c20)]
 }
